@@ -342,6 +342,54 @@ def int_strings(rng, n):
     return out
 
 
+
+# ---------------------------------------------------------------------------------------------
+# call sequences: the conversions are FUNCTIONS of their argument (no dependence on earlier calls / errno)
+# ---------------------------------------------------------------------------------------------
+
+SEQ_INT = [('0', 'valid-min'), ('1', 'valid'), ('2147483647', 'valid'), ('4294967294', 'valid-max-u32'), ('4294967295', 'max-u32'), ('4294967296', 'max-u32+1'),
+           ('9223372036854775807', 'valid-max-i64'), ('9223372036854775808', 'max-i64+1'), ('-9223372036854775808', 'min-i64'), ('-9223372036854775809', 'min-i64-1'),
+           ('18446744073709551615', 'max-u64'), ('18446744073709551616', 'overflow-u64'), ('99999999999999999999999', 'overflow-u64'), ('-99999999999999999999999', 'overflow-neg'),
+           ('-1', 'negative'), ('-2', 'negative'), ('', 'empty'), ('x', 'garbage'), ('12x', 'garbage'), (' 1', 'lead-space-plus'), ('+1', 'lead-space-plus'), ('0x10', 'hex')]
+SEQ_INT_SHORT = [SEQ_INT[k] for k in (0, 3, 4, 6, 11, 13, 17, 19)]
+SEQ_COORD = [('0', 'valid-min'), ('-180', 'valid'), ('214.7483647', 'valid-max'), ('214.7483648', 'max+1'), ('-214.7483648', 'valid-min'), ('1e56', 'overflow'), ('0.000000001e9', 'valid'),
+             ('1e99999', 'overflow'), ('99999999999', 'overflow'), ('', 'empty'), ('x', 'garbage'), ('1.5x', 'garbage'), (' 1', 'lead-space-plus'), ('+1', 'lead-space-plus'), ('0x1', 'hex')]
+SEQ_TS = [('1970-01-01T00:00:00Z', 'valid-min'), ('2106-02-07T06:28:15Z', 'valid-max'), ('2106-02-07T06:28:16Z', 'max+1'), ('9999-12-31T23:59:60Z', 'overflow'),
+          ('0001-01-01T00:00:00Z', 'negative'), ('1969-12-31T23:59:59Z', 'negative'), ('2001-02-29T00:00:00Z', 'garbage'), ('2000-02-29T00:00:00Z', 'valid'), ('', 'empty'), ('x', 'garbage'),
+          ('2000-01-01T00:00:00', 'garbage'), (' 2000-01-01T00:00:00Z', 'lead-space-plus'), ('2000-01-01T00:00:00.5Z', 'valid')]
+SEQ_FAMILIES = [   # (conversion, family, alphabet)
+    ('sid', 'id', SEQ_INT), ('ver', 'u32attr', SEQ_INT), ('cs', 'u32attr', SEQ_INT_SHORT), ('uid', 'u32attr', SEQ_INT_SHORT), ('nch', 'u32attr', SEQ_INT_SHORT),
+    ('ncm', 'u32attr', SEQ_INT_SHORT), ('s2i32', 'str_to_int', SEQ_INT_SHORT), ('s2i64', 'str_to_int', SEQ_INT_SHORT), ('s2u64', 'str_to_int', SEQ_INT_SHORT),
+    ('oi64', 'opl_int', SEQ_INT_SHORT), ('ou32', 'opl_int', SEQ_INT_SHORT), ('c', 'coord', SEQ_COORD), ('clon', 'coord', SEQ_COORD[:3] + SEQ_COORD[5:6] + SEQ_COORD[11:13]),
+    ('clat', 'coord', SEQ_COORD[1:3] + SEQ_COORD[7:8] + SEQ_COORD[10:11]), ('tp', 'timestamp', SEQ_TS), ('ts', 'timestamp', SEQ_TS), ('topl', 'timestamp', SEQ_TS[:4] + SEQ_TS[8:10] + SEQ_TS[11:12]),
+]
+SEQ_POISON = ['0', 'ERANGE', 'EINVAL', 'EDOM']
+
+
+def seq_items():
+    """(conversion, family, string, class) for every conversion x its boundary alphabet"""
+    return [(cv, fam, s, cl) for cv, fam, alpha in SEQ_FAMILIES for s, cl in alpha]
+
+
+def seq_line(poison, items):
+    return 'seq %s %s' % (poison, ' '.join('%s %s' % (it[0], hx(it[2])) for it in items))
+
+
+def seq_coarse(cl):
+    """class of an argument string in the evidence histogram"""
+    if cl.startswith('valid'):
+        return 'valid'
+    if cl.startswith('overflow'):
+        return 'overflow(>=2^64)'
+    if cl.startswith('max') or cl.startswith('min'):
+        return 'type-boundary'
+    return cl
+
+
+def seq_outcome_class(r):
+    return 'err' if r == 'err' else ('zero' if r in ('0', 'ok 0', 'ok 0 0') else 'ok')
+
+
 # ---------------------------------------------------------------------------------------------
 
 def run_both(ctx, hbin, ops, variant, want_model=True):
@@ -773,6 +821,76 @@ def run(ctx):
         if got != 'ok %d %d' % (v, len(s)):
             note_mismatch('int-roundtrip:%d' % v, op, str(v), got, 'ok %d %d' % (v, len(s)))
 
+    # ---- 6b. call sequences: every conversion is a function of its argument ------------------------------
+    # (the harness presets errno and runs 1..3 conversions back to back on one thread; the model is a pure function
+    # of each argument, so a result that depends on an earlier call or on errno is a model disagreement AND a
+    # monitor hit: outcome(B | after A, errno = e) must be outcome(B | nothing before, errno = 0))
+    items = seq_items()
+    single = [seq_line('0', [it]) for it in items]
+    seq_ops = list(single)
+    seq_meta = [('0', (it,)) for it in items]
+    for e in SEQ_POISON[1:]:
+        for it in items:
+            seq_ops.append(seq_line(e, [it]))
+            seq_meta.append((e, (it,)))
+    for a in items:                       # all ordered pairs, errno = 0 before A
+        for b in items:
+            seq_ops.append(seq_line('0', [a, b]))
+            seq_meta.append(('0', (a, b)))
+    for _ in range(3000 if quick else 30000):    # pairs under a poisoned errno
+        e, tup = rng.choice(SEQ_POISON[1:]), (rng.choice(items), rng.choice(items))
+        seq_ops.append(seq_line(e, tup))
+        seq_meta.append((e, tup))
+    for _ in range(4000 if quick else 60000):    # triples, any errno
+        e, tup = rng.choice(SEQ_POISON), (rng.choice(items), rng.choice(items), rng.choice(items))
+        seq_ops.append(seq_line(e, tup))
+        seq_meta.append((e, tup))
+    impl, model = run_both(ctx, hbin, seq_ops, variant, have_model)
+    diff('call-sequences', seq_ops, impl, model)
+    fresh = {}
+    for it, got in zip(items, impl):
+        fresh[it] = got
+    seq_hist = {}
+    seq_hits = []
+    for op, (e, tup), got in zip(seq_ops, seq_meta, impl):
+        ctx.note_case(op)
+        parts = got.split(' | ')
+        want = [fresh.get(it, '<none>') for it in tup]
+        ctx.count('seq-length:%d' % len(tup))
+        ctx.count('seq-errno-before:' + e)
+        for k, it in enumerate(tup):
+            r = parts[k] if k < len(parts) else '<missing>'
+            prev = tup[k - 1] if k else None
+            hk = '%s|%s|%s|%s|%s' % (it[1], seq_coarse(prev[3]) if prev else '(first call)', seq_coarse(it[3]), e, seq_outcome_class(r) + ('' if r == want[k] else '-DIFFERS-FROM-FRESH'))
+            seq_hist[hk] = seq_hist.get(hk, 0) + 1
+        if parts != want:
+            k = next((i for i in range(len(tup)) if i >= len(parts) or parts[i] != want[i]), 0)
+            seq_hits.append((len(tup), op, e, tup, k, got, ' | '.join(want)))
+    ctx.extra['call_sequence_histogram'] = {'key': 'conversion family | class(previous call argument) | class(argument) | errno preset before the first call | outcome',
+                                            'items': len(items), 'lines': len(seq_ops), 'counts': dict(sorted(seq_hist.items()))}
+    ctx.sample(seq_ops[len(items) * 4 + 1] + '   # -> ' + impl[len(items) * 4 + 1])
+    ctx.count('monitor-mismatch:call-sequence', len(seq_hits))
+    reported = set()
+    # shortest sequences first within each kind; one violation per conversion whose result moved, pairs before pure errno presets
+    for n, op, e, tup, k, got, want in sorted(seq_hits, key=lambda h: (0 if h[0] == 2 and h[2] == '0' else 1 if h[0] == 1 else 2, h[0])):
+        b = tup[k]
+        kind = 'history' if not (n == 1) else 'ambient-errno'
+        if (kind, b[0]) in reported or len(reported) >= 6:
+            continue
+        reported.add((kind, b[0]))
+        if kind == 'history':
+            pre = ', '.join('%s("%s")' % (t[0], t[2]) for t in tup[:k])
+            key = 'history:%s:"%s"-after-%s' % (b[0], b[2], '-'.join('%s:"%s"' % (t[0], t[2]) for t in tup[:k]) or 'errno=' + e)
+            what = ('the result of a conversion depends on the calls made before it: %s("%s") gives `%s` after %s%s, but `%s` as the first call with errno = 0 '
+                    '(the property: the result is determined by the string)' % (b[0], b[2], got.split(' | ')[k] if k < len(got.split(' | ')) else got, pre or 'nothing',
+                                                                               '' if e == '0' else ' with errno preset to ' + e, fresh.get(b)))
+        else:
+            key = 'ambient-errno:%s:"%s":%s' % (b[0], b[2], e)
+            what = ('the result of a conversion depends on the value errno has before the call: %s("%s") gives `%s` with errno == %s, `%s` with errno == 0'
+                    % (b[0], b[2], got, e, fresh.get(b)))
+        ctx.violation(key[:160], what, {'kind': 'counterexample', 'op': op, 'impl': got, 'reference': want, 'sequence': [[t[0], t[2]] for t in tup], 'errno_before': e,
+                                        'failing_call': k, 'hits_in_this_run': len(seq_hits), 'replay': replay_cmd(op)})
+
     # ---- 7. violations ---------------------------------------------------------------------------------
     CANON = {'coord-exp-overflow': ('coord-parse:' + W_F1, W_F1,
                                     'REGRESSION of fix 5d92c23 (F1): string_to_location_coordinate accepts an out-of-range value, the scaling loop `result *= 10` overflows int64 and wraps'),
@@ -806,5 +924,5 @@ def run(ctx):
         name, op, a, b = corr[0]
         ctx.violation('correspondence:' + name + ':' + op[:80],
                       'model (variant %s) and implementation disagree on %d lines, first in stream %s: `%s` impl=`%s` model=`%s`%s'
-                      % ('/'.join(map(str, variant)), len(corr), name, op, a, b, '' if other else ' — and the reference monitors found no property violation there'),
-                      {'kind': 'broken-correspondence', 'variant': list(variant), 'first': corr[:8], 'replay': replay_cmd(op)}, found_input=bool(other))
+                      % ('/'.join(map(str, variant)), len(corr), name, op, a, b, '' if (other or seq_hits) else ' — and the reference monitors found no property violation there'),
+                      {'kind': 'broken-correspondence', 'variant': list(variant), 'first': corr[:8], 'replay': replay_cmd(op)}, found_input=bool(other or seq_hits))
